@@ -506,9 +506,9 @@ def handover(ctx, rule):
             tok_vec = q.root_local(q.arg_expr(b, t, 0))
     ctx.check(tok_vec is not None and q.root_local(call.args[1]) == tok_vec, rule, fn, "new#1:tokens", "the token vector passed is the one the segments were pushed to")
     ctx.check(q.wild("Iterator::collect(Iterator::map(IntoIterator::into_iter(Option::unwrap_or_default(arg1.names)),closure:*))", a[2]) or q.wild("Iterator::collect(Iterator::map(IntoIterator::into_iter(Option::unwrap_or_default(arg1.names)),fn:*))", a[2]), rule, fn, "new#2:names", "names come from the document's names", detail=a[2])
-    ctx.check(a[3] == "Iterator::collect(Iterator::map(Iterator::map(IntoIterator::into_iter(Option::unwrap_or_default(arg1.sources)),fn:Option::unwrap_or_default),fn:Into::into))", rule, fn, "new#3:sources",
+    ctx.check(a[3] == "Iterator::collect(Iterator::map(IntoIterator::into_iter(Option::unwrap_or_default(arg1.sources)),fn:Option::unwrap_or_default))", rule, fn, "new#3:sources",
               "sources come from the document's sources, null entries read as empty names", detail=a[3])
-    ctx.check(a[4] == "Option::map(arg1.sources_content,\u03bb(Iterator::collect(Iterator::map(IntoIterator::into_iter(p1),\u03bb(Option::map(p1,fn:Into::into))))))", rule, fn, "new#4:contents", "contents come from sourcesContent", detail=a[4])
+    ctx.check(a[4] == "Option::map(arg1.sources_content,\u03bb(Iterator::collect(IntoIterator::into_iter(p1))))", rule, fn, "new#4:contents", "contents come from sourcesContent", detail=a[4])
     sm = q.root_local(b.expr_of_operand({"k": "copy", "place": b.blocks[nb]["term"]["dest"]}))
     roles = {sm: "sm"}
     oks = __import__("rules.common", fromlist=["x"]).result_blocks(b, "Ok")
